@@ -144,8 +144,13 @@ impl VouchedTime {
             return Err(std::io::Error::other("base_time does not match voucher"));
         }
 
+        // Round towards negative infinity: a truncating division would map
+        // local times less than 1 ms before the Unix epoch to millisecond 0.
         Self::check_vouched_time(
-            local_time.assume_utc().unix_timestamp_nanos() / 1_000_000,
+            local_time
+                .assume_utc()
+                .unix_timestamp_nanos()
+                .div_euclid(1_000_000),
             base_time_ms,
         )
     }
